@@ -50,6 +50,11 @@ def run(chk, repo):
     chk.doc("R21.7", "stamp parity in the dispatcher")
     typestate(chk, repo)
     activation(chk, repo)
+    # which datagrams are writers, where their command bytes and working
+    # counters are and what count is expected: decided on allocated groups
+    from . import c18
+    chk.doc("R18.6", "allocation decoded independently (shared with C18)")
+    c18.allocation_semantic(chk, repo)
     program(chk, repo)
     dispatcher(chk, repo)
     writers(chk, repo)
